@@ -331,6 +331,38 @@ def loop_on_break_path_family(nmax):
     return out
 
 
+def kill_in_loop_family():
+    """beyond F: branches that die inside a loop body (kill paths in loops,
+    as in the corpus kill_in_loop / paths_should_kill_in_loop), also below a
+    bunched XOR of two forks"""
+    E_ = lambda n: ('ev', n)  # noqa: E731
+    D = ('detach',)
+    out = []
+    for op in ('and', 'or'):
+        # loop[A op[B|C detach] D] E  and three-branch variants
+        out.append((E_('S'), ('loop', (E_('A'), (op, ((E_('B'),), (E_('C'), D))),
+                                       E_('D'))), E_('E')))
+        out.append((E_('S'), ('loop', (E_('A'), (op, ((E_('B'),), (E_('C'), D),
+                                                      (E_('F'), D))),
+                                       E_('D'))), E_('E')))
+        out.append((E_('S'), ('loop', (E_('A'), (op, ((E_('B'),), (E_('C'),),
+                                                      (E_('F'), D))),
+                                       E_('D'))), E_('E')))
+        for op2 in ('and', 'or'):
+            # XOR of two forks in the loop body, one with a dying branch
+            out.append((E_('S'), ('loop', (
+                E_('A'), E_('B'),
+                ('xor', (((op, ((E_('C'),), (E_('X'), D))),),
+                         ((op2, ((E_('D'),), (E_('F'),))), E_('G')))),
+                E_('H'))), E_('E')))
+            out.append((E_('S'), ('loop', (
+                E_('A'),
+                ('xor', (((op, ((E_('C'),), (E_('X'), D))),),
+                         ((op2, ((E_('D'),), (E_('F'),))),))),
+                E_('H'))), E_('E')))
+    return out
+
+
 def F_plus_extra(nmax):
     """multi-start variants: leading event removed when a fork follows it.
     (a definition of F with n+1 events gives a variant with n events)"""
